@@ -153,4 +153,69 @@ CONFIG = {
         "mandatory_labels": ["C14:out-of-range-params", "C14:lands-on-bound", "C14:clamped", "C14:degenerate-range", "C14:empty-series",
                              "C14:api:aspectEliminationHeuristic", "C14:api:satisfactionHeuristic", "C14:api-out-of-range"],
     },
+    "C15": {
+        "rule": "cases = all methods with exactly one firing criteria omission (five orderings, seeds, ratio incl. n*ratio integral, "
+                "min/max keeping >= 1 criterion, 25% superfluous method-parameter entries, importance ties) between two probes; "
+                "oracles: count rule, omitted are distinct declared criteria, every structure restricted to the kept criteria with "
+                "unchanged values, decision == decision of the reduced request (kept order from the probe; aspect elimination only "
+                "with distinct weights), weakest/strongest against the documented importance recomputed independently; "
+                "statistical batches over 2000 seeds for the probabilistic/random orderings. Non-trivial = n >= 3, 1 <= k < n, "
+                "importances not all equal (relation) / every batch; distinct by case text",
+        "assumptions": ["statistical acceptance: difference of first-position counts > 6*sqrt(N), expected about 30*sqrt(N) for importances 1:4:16"],
+        "quick": {"checks": 12000, "shards": 8, "min_nontrivial": 20000},
+        "thorough": {"checks": 150000, "shards": 14, "min_nontrivial": 250000, "timeout": 3000},
+        "mandatory_labels": ['C15:nontrivial:weightedSum', 'C15:nontrivial:owa', 'C15:nontrivial:choquetIntegral', 'C15:nontrivial:electreIII', 'C15:nontrivial:majorityHeuristic', 'C15:nontrivial:aspectEliminationHeuristic', 'C15:nontrivial:satisfactionHeuristic', 'C15:reduced-equivalence-checked:weightedSum', 'C15:reduced-equivalence-checked:owa', 'C15:reduced-equivalence-checked:choquetIntegral', 'C15:reduced-equivalence-checked:electreIII', 'C15:reduced-equivalence-checked:majorityHeuristic', 'C15:reduced-equivalence-checked:aspectEliminationHeuristic', 'C15:reduced-equivalence-checked:satisfactionHeuristic', 'C15:ordering=weakest', 'C15:ordering=strongest', 'C15:ordering=random', 'C15:ordering=weakestByProbability', 'C15:ordering=strongestByProbability', 'C15:superfluous-param', 'C15:stat-decisions'],
+    },
+    "C16": {
+        "rule": "cases = all methods, 0..2 arbitrary preceding biases, then a preference reversal (orderings, ratios, min/max, declared "
+                "or observed ranges, considered = known or subset) between probes; oracle: count rule, new = max+min-old over the "
+                "range of the state received for every known alternative, report = criteria/ranges/values handed on, every other "
+                "value, the criteria list and the parameter fingerprint unchanged, observed range preserved; plus double reversal "
+                "with a value-independent selection restores the data. Non-trivial = >= 1 selected and >= 1 unselected criterion "
+                "with differing values on a selected one; distinct by request text",
+        "assumptions": ["double reversal is judged only when both applications report the same selected criteria"],
+        "quick": {"checks": 12000, "shards": 8, "min_nontrivial": 15000},
+        "thorough": {"checks": 150000, "shards": 14, "min_nontrivial": 200000, "timeout": 3000},
+        "mandatory_labels": ['C16:nontrivial:weightedSum', 'C16:nontrivial:owa', 'C16:nontrivial:choquetIntegral', 'C16:nontrivial:electreIII', 'C16:nontrivial:majorityHeuristic', 'C16:nontrivial:aspectEliminationHeuristic', 'C16:nontrivial:satisfactionHeuristic', 'C16:after-other-biases'],
+    },
+    "C17": {
+        "rule": "cases = all methods, 0..2 arbitrary preceding biases, then fatigue (const incl. 0 and negative, expFromZero incl. "
+                "queryNumber 0, any seed, bounding off / scaled / non-negative, values of any sign) between probes; oracle: ratio "
+                "formula, |v'-v| <= |f v| (interval pushed through the bounding function when configured), f=0 identity, criteria "
+                "and parameter fingerprint unchanged, report == values handed on == method input; run-level: both directions and "
+                "varying u observed. Non-trivial = f != 0 and >= 4 non-zero values; distinct by request text",
+        "assumptions": ["interval slack 1e-12 relative"],
+        "quick": {"checks": 12000, "shards": 8, "min_nontrivial": 20000},
+        "thorough": {"checks": 150000, "shards": 14, "min_nontrivial": 250000, "timeout": 3000},
+        "mandatory_labels": ['C17:nontrivial:weightedSum', 'C17:nontrivial:owa', 'C17:nontrivial:choquetIntegral', 'C17:nontrivial:electreIII', 'C17:nontrivial:majorityHeuristic', 'C17:nontrivial:aspectEliminationHeuristic', 'C17:nontrivial:satisfactionHeuristic', 'C17:moved-up', 'C17:moved-down', 'C17:u-low', 'C17:u-high', 'C17:bounded'],
+    },
+    "C18": {
+        "rule": "cases = all methods, 0..2 arbitrary preceding biases or the same bias 2-3 times, then criteria concealment / mixing "
+                "(three reference strategies, scaling != 0 incl. negative, mixing ratio in [0,1] incl. 0 and 1, bounding options, "
+                "1..5 criteria) between probes; oracle: exactly one new gain criterion with an unused id appended, every known "
+                "alternative valued, existing values/criteria untouched, the method evaluates the new state, new weight = "
+                "fraction in [0,1) of an existing criterion's weight which also explains the reported range, concealed values in "
+                "the scaled range pushed through the bounding, mixing components = two distinct criteria rescaled to [0,T] with "
+                "cost inverted and mixed = ratio*c1+(1-ratio)*c2; component batches for the reference-criterion providers. "
+                "Non-trivial = >= 2 criteria and >= 2 alternatives before the step; distinct by case text",
+        "assumptions": ["'existing criteria' for the reference criterion = criteria of the original or of the current state (concealment ranks the original state by design)"],
+        "quick": {"checks": 12000, "shards": 8, "min_nontrivial": 25000},
+        "thorough": {"checks": 150000, "shards": 14, "min_nontrivial": 300000, "timeout": 3000},
+        "mandatory_labels": ['C18:nontrivial:criteriaConcealment:weightedSum', 'C18:nontrivial:criteriaConcealment:owa', 'C18:nontrivial:criteriaConcealment:choquetIntegral', 'C18:nontrivial:criteriaConcealment:electreIII', 'C18:nontrivial:criteriaConcealment:majorityHeuristic', 'C18:nontrivial:criteriaConcealment:aspectEliminationHeuristic', 'C18:nontrivial:criteriaConcealment:satisfactionHeuristic', 'C18:nontrivial:criteriaMixing:weightedSum', 'C18:nontrivial:criteriaMixing:owa', 'C18:nontrivial:criteriaMixing:choquetIntegral', 'C18:nontrivial:criteriaMixing:electreIII', 'C18:nontrivial:criteriaMixing:majorityHeuristic', 'C18:nontrivial:criteriaMixing:aspectEliminationHeuristic', 'C18:nontrivial:criteriaMixing:satisfactionHeuristic', 'C18:repeated-application', 'C18:mixing-single-criterion', 'C18:mixing-cost-component', 'C18:provider-calls'],
+    },
+    "C19": {
+        "rule": "cases = all methods, 0..1 arbitrary preceding bias, then anchoring (1..3 anchoring alternatives considered or not, "
+                "positive equal/mixed coefficients, ideal/nadir, linear and exponential gain/loss incl. identically zero and b != 0, "
+                "both appliers with all options, gain and cost, degenerate ranges) between probes; oracle: reference point = "
+                "coefficient-weighted extreme, scaling = 1/range, mapped difference = gain(d) if d > 0 else -loss(-d), inline: "
+                "new = B(old + range x mapped difference) for considered (others only if asked) with appliedDifferences == new - old "
+                "and zero functions => identity, newCriterion: one appended criterion = B(mid + half x importance-weighted mean), "
+                "reported range = observed range, existing values untouched. Non-trivial = (>= 2 anchoring alternatives with "
+                "different coefficients or a cost criterion) and both a positive and a non-positive difference; distinct by request text",
+        "assumptions": ["importances for the newCriterion applier are the listener's own RankCriteriaAscending of the received state (recorded by the probe)",
+                        "requests where the documented exponential formula overflows float64 (alpha x |d| > 600) are skipped (counted)"],
+        "quick": {"checks": 12000, "shards": 8, "min_nontrivial": 20000},
+        "thorough": {"checks": 150000, "shards": 14, "min_nontrivial": 250000, "timeout": 3000},
+        "mandatory_labels": ['C19:nontrivial:weightedSum', 'C19:nontrivial:owa', 'C19:nontrivial:choquetIntegral', 'C19:nontrivial:electreIII', 'C19:nontrivial:majorityHeuristic', 'C19:nontrivial:aspectEliminationHeuristic', 'C19:nontrivial:satisfactionHeuristic', 'C19:inline', 'C19:newCriterion', 'C19:zero-functions', 'C19:degenerate-range'],
+    },
 }
